@@ -110,17 +110,20 @@ for dim, cls in ((1, QuadScheme1D), (2, QuadScheme2D), (3, QuadScheme3D)):
     pts = rng.uniform(0.05, 0.95, size=(dim, n))
     w = rng.uniform(0.1, 1.0, size=n)
     s = cls(pts[0] if dim == 1 else pts, w)
-    box = [(1.5, 4.0), (-2.0, 1.0), (0.25, 7.0)][:dim]
     f1 = lambda x: np.sin(x) + x ** 2
     fN = lambda x: np.sin(x[0]) + x[-1] ** 2 * np.cos(x[min(1, dim - 1)])
-    args = [v for ab in box for v in ab]
-    got = s.integrate(f1 if dim == 1 else fN, *args)
-    X = np.array([lo + (hi - lo) * pts[k] for k, (lo, hi) in enumerate(box)])
-    vol = np.prod([hi - lo for lo, hi in box])
-    want = vol * np.dot(f1(X[0]) if dim == 1 else fN(X), w)
-    observed.append((dim, float(got), float(want)))
-    if abs(got - want) > 1e-10 * abs(want):
-        violated = True
+    # generic boxes, boxes with end points exactly 0, negative boxes, very small and very large sides
+    for boxes in ([(1.5, 4.0), (-2.0, 1.0), (0.25, 7.0)], [(1.0, 2.0), (0.0, 1.0), (-1.0, 0.0)], [(-2.0, -1.0), (-1.0, 0.0), (3.0, 4.0)],
+                  [(0.0, 1e-3), (5.0, 5.5), (0.0, 2e3)]):
+        box = boxes[:dim]
+        args = [v for ab in box for v in ab]
+        got = s.integrate(f1 if dim == 1 else fN, *args)
+        X = np.array([lo + (hi - lo) * pts[k] for k, (lo, hi) in enumerate(box)])
+        vol = np.prod([hi - lo for lo, hi in box])
+        want = vol * np.dot(f1(X[0]) if dim == 1 else fN(X), w)
+        if abs(got - want) > 1e-10 * abs(want):
+            violated = True
+            observed.append((dim, box, float(got), float(want)))
 '''
 
 contracts = [
